@@ -409,26 +409,33 @@ class PoolMetricsStream(Stream):
             yield gen_case(rng)
 
     def run_impl(self, case):
-        return run_case(case)
+        try:
+            return run_case(case)
+        except Exception as exc:  # the calculators never raise on the unchanged tree; a mutant may
+            return {"error": f"{type(exc).__name__}: {exc}"}
 
     def to_coq(self, case, obs):
-        return case_term(case, obs)
+        return None if "error" in obs else case_term(case, obs)
 
     def show_term(self, case, obs):
         return f"(soc_calc {c_bats(case['bats'])}, cap_calc {c_bats(case['bats'])})"
 
     def oracle(self, case, obs):
+        if "error" in obs:
+            return [{"what": f"crash: the calculators raised {obs['error']}", "finding": None}]
         return oracle_c18(case, obs)
 
     def shrink(self, case):
         return shrink_case(case)
 
     def key(self, case, obs):
-        if obs["soc"] is None and obs["cap"] is None:
+        if "error" in obs or (obs["soc"] is None and obs["cap"] is None):
             return None
         return json.dumps(case["bats"], sort_keys=True)
 
     def labels(self, case, obs):
+        if "error" in obs:
+            return ["impl_error"]
         bats = case["bats"]
         out = [f"batteries={len(bats)}", f"qualifying={sum(1 for b in bats if q_soc(b))}"]
         if case.get("fetch"):
